@@ -203,7 +203,11 @@ func runC07(c *an.Ctx, p *an.Prog, thorough bool) {
 	}
 	split := p.Method("/cmd/whawty-auth", "webSessionFactory", "splitCheckToken")
 	check := p.Method("/cmd/whawty-auth", "webSessionFactory", "Check")
-	if need(c, "C07.3", openFn, "function invoking cipher.AEAD.Open") {
+	mergedOpen := openFn != nil && openFn == check // Open is called by Check itself (no opening helper)
+	if mergedOpen {
+		c.OK("C07.3", fnKey(openFn)+"|200-only-if-opened", p.Pos(openFn.Pos()), "Check calls AEAD.Open itself: 'only after Open err==nil, on the opened plaintext' is decided by the delegation rule below")
+	}
+	if need(c, "C07.3", openFn, "function invoking cipher.AEAD.Open") && !mergedOpen {
 		var bad []string
 		n200 := 0
 		an.EnumPaths(openFn, nil, nil, func(s *an.PathState) {
@@ -257,7 +261,7 @@ func runC07(c *an.Ctx, p *an.Prog, thorough bool) {
 			}
 			nOK++
 			sc, i := st.CallOf()
-			if sc == nil || sc.Aux != split.String() || i != 0 {
+			if sc == nil || (sc.Aux != split.String() && staticCallee(sc) != split) || i != 0 {
 				bad = append(bad, "a possibly-200 status is returned that is not splitCheckToken's: "+st.K+" (path "+s.BlockPath()+")")
 				return
 			}
@@ -268,30 +272,47 @@ func runC07(c *an.Ctx, p *an.Prog, thorough bool) {
 			}
 			// openToken status == 200 and its token is what is split
 			var ot *an.Term
+			opnd := 1 // position of the nonce operand in ot's arguments
 			for _, e := range s.Events {
-				if e.Kind == "call" && e.Fn == openFn {
+				if !mergedOpen && e.Kind == "call" && e.Fn == openFn {
 					ot = e.Res
+				}
+				if mergedOpen && e.Kind == "call" && strings.HasSuffix(e.Callee, "cipher.AEAD.Open") {
+					ot = e.Res
+					opnd = 2
 				}
 			}
 			if ot == nil {
 				bad = append(bad, "splitCheckToken reached without openToken")
 				return
 			}
-			ok200 := false
-			for _, a := range s.Atoms {
-				if a.Op == "==" && a.B.IsConst("200") && a.A.K == extractOf(ot, 0).K {
-					ok200 = true
+			if !mergedOpen {
+				ok200 := false
+				for _, a := range s.Atoms {
+					if a.Op == "==" && a.B.IsConst("200") && a.A.K == extractOf(ot, 0).K {
+						ok200 = true
+					}
 				}
-			}
-			if !ok200 {
-				bad = append(bad, "splitCheckToken reached without openToken status==200 (path "+s.BlockPath()+")")
-			}
-			if sc.Args[1].K != extractOf(ot, 2).K {
-				bad = append(bad, "splitCheckToken is applied to "+sc.Args[1].K+", not to the opened token")
+				if !ok200 {
+					bad = append(bad, "splitCheckToken reached without openToken status==200 (path "+s.BlockPath()+")")
+				}
+				if sc.Args[1].K != extractOf(ot, 2).K {
+					bad = append(bad, "splitCheckToken is applied to "+sc.Args[1].K+", not to the opened token")
+				}
+			} else {
+				if !extractNil(s, ot, 1) {
+					bad = append(bad, "splitCheckToken reached without AEAD.Open err==nil (path "+s.BlockPath()+")")
+				}
+				if sc.Args[1].StripConv().K != extractOf(ot, 0).K {
+					bad = append(bad, "splitCheckToken is applied to "+sc.Args[1].K+", not to the opened plaintext")
+				}
+				if a0 := ot.Args[0]; !(a0.Op == "load" && a0.Args[0].Aux == "aesgcm") {
+					bad = append(bad, "Open is not invoked on the factory's AEAD")
+				}
 			}
 			// nonce and ciphertext: URL-base64 decoded halves [0] and [1] of SplitN(session, ":", 2), errors checked
 			for k, want := range []string{"0", "1"} {
-				arg := ot.Args[1+k]
+				arg := ot.Args[opnd+k]
 				dc, di := arg.CallOf()
 				if dc == nil || di != 0 || dc.Aux != "(*encoding/base64.Encoding).DecodeString" {
 					bad = append(bad, fmt.Sprintf("openToken operand %d is not a base64 DecodeString result: %s", k, arg.K))
@@ -418,12 +439,28 @@ func runC07(c *an.Ctx, p *an.Prog, thorough bool) {
 					seal = e
 				}
 			}
+			// without a sealing helper Generate calls AEAD.Seal itself: plaintext operand 3, results (nonce operand, Seal result)
+			var sealedPT *an.Term
+			halves := [2]*an.Term{}
+			if seal != nil {
+				sealedPT = seal.Args[1]
+				halves[0], halves[1] = extractOf(seal.Res, 2), extractOf(seal.Res, 3)
+			} else {
+				for i := range s.Events {
+					e := &s.Events[i]
+					if e.Kind == "call" && strings.HasSuffix(e.Callee, "cipher.AEAD.Seal") {
+						seal = e
+						sealedPT = e.Args[3].StripConv()
+						halves[0], halves[1] = e.Args[2], e.Res
+					}
+				}
+			}
 			if seal == nil {
 				bad = append(bad, "no sealing call on the success path")
 				return
 			}
-			if ptArgs, okPt := fmtArgs(seal.Args[1], "%s:%t:%d"); !okPt {
-				bad = append(bad, "sealed plaintext is not Sprintf(\"%s:%t:%d\", …): "+seal.Args[1].K)
+			if ptArgs, okPt := fmtArgs(sealedPT, "%s:%t:%d"); !okPt {
+				bad = append(bad, "sealed plaintext is not Sprintf(\"%s:%t:%d\", …): "+sealedPT.K)
 			} else {
 				va := &an.Term{Op: "varargs", Args: ptArgs}
 				okArgs := va.Op == "varargs" && len(va.Args) == 3 && va.Args[0].K == s.T(gen.Params[1]).K && va.Args[1].K == s.T(gen.Params[2]).K
@@ -446,7 +483,7 @@ func runC07(c *an.Ctx, p *an.Prog, thorough bool) {
 						bad = append(bad, fmt.Sprintf("session half %d is not base64.URLEncoding.EncodeToString", k))
 						continue
 					}
-					if ec.Args[1].K != extractOf(seal.Res, 2+k).K {
+					if ec.Args[1].K != halves[k].K {
 						bad = append(bad, fmt.Sprintf("session half %d does not encode result %d of the sealing call (nonce, ciphertext order)", k, 2+k))
 					}
 				}
@@ -463,6 +500,10 @@ func runC07(c *an.Ctx, p *an.Prog, thorough bool) {
 					continue
 				}
 				var bad []string
+				if fn == gen {
+					c.OK("C07.5", fnKey(fn)+"|seal-shape", p.InstrPos(in), "Generate seals itself: plaintext and the encoded (nonce, ciphertext) are checked by writer-format")
+					continue
+				}
 				an.EnumPaths(fn, nil, nil, func(s *an.PathState) {
 					idx := indexOfInstr(s.Events, in)
 					if idx < 0 {
